@@ -115,6 +115,7 @@ def run_case(case):
         res.violation("build-" + mech, f"building a generated program raised\n{text}", desc)
         return res
     sh = Shadow(prog, res)
+    sh.reuse = case["idx"] % 3 == 1
     ops = gen_ops(rng, prog, case["n_ops"])
     sh.check_values("build")
     sh.check_all_uptodate("build")
